@@ -112,6 +112,14 @@ def ofFut {α σ : Type} (s : Src α) (acc : σ) (g : σ → α → σ) (sh : σ
   { hint0 := showHint none, log := log acc,
     polls := unroll step' (fun _ => none) (fun x => log x.2.1) cap (s, acc, false) }
 
+/-- another machine used as a source: its answer sequence and its hints (see `HvPull.trace`) -/
+structure TSrc (β : Type) where
+  script : Src β
+  hint : Src β → Hint
+
+def traceSrc {σ β : Type} (st : σ) (step : σ → σ × Step β) (hint : σ → Hint) : TSrc β :=
+  ⟨trace step cap st, traceHint (hint st) (traceHints step hint cap st) cap⟩
+
 def tblOf (f : String → Option α) (s : String) : Option (List α) :=
   match (s.splitOn ";").mapM f with
   | some [] => none
@@ -239,6 +247,40 @@ def build (st : St) (name : String) : Option Mach := do
       | "-" => some none
       | v => v.toNat?.map some
     pure (ofPull (⟨a, b, init⟩ : CrossSt Nat Nat) crossStep pairNN (crossHint ha))
+  | "pz" =>
+    -- zip(map f A, filter p B)
+    let tf ← tblNat (← st.p "f"); let tp ← tblNat (← st.p "p")
+    let (a, ha) ← st.natSrc "A"; let (b, hb) ← st.natSrc "B"
+    let a' := traceSrc a (mapStep (at' tf)) (mapHint ha)
+    let b' := traceSrc b (filterStep (fun x => at' tp x != 0)) (filterHint hb)
+    pure (ofPull (⟨a'.script, b'.script, none⟩ : ZipSt Nat Nat) zipStep pairNN (zipHint a'.hint b'.hint))
+  | "pt" =>
+    -- take n (flat_map g A)
+    let tg ← tblList (← st.p "f"); let n ← (← st.p "n").toNat?
+    let (a, _) ← st.natSrc "A"
+    let a' := traceSrc (a, (none : Option (List Nat))) (flatMapStep (at' tg)) (flatMapHint List.length)
+    pure (ofPull (a'.script, n) takeStep nat (takeHint a'.hint))
+  | "pc" =>
+    -- chain(fuse(A), skip n B)
+    let n ← (← st.p "n").toNat?
+    let (a, ha) ← st.natSrc "A"; let (b, hb) ← st.natSrc "B"
+    let a' := traceSrc (some a) fuseStep (fuseHint ha)
+    let b' := traceSrc (b, n) skipStep (skipHint hb)
+    pure (ofPull (a'.script, b'.script) chainStep nat (chainHint a'.hint b'.hint))
+  | "pl" =>
+    -- zip_longest(fuse(take_while p A), enumerate B)
+    let tp ← tblNat (← st.p "p")
+    let (a, ha) ← st.natSrc "A"; let (b, hb) ← st.natSrc "B"
+    if hasEnd b then none else
+    let a1 := traceSrc a (takeWhileStep (fun x => at' tp x != 0)) (takeWhileHint ha)
+    let a' := traceSrc (some a1.script) fuseStep (fuseHint a1.hint)
+    let b' := traceSrc (b, 0) enumerateStep (enumerateHint hb)
+    pure (ofPull (⟨a'.script, b'.script, none⟩ : ZipSt Nat (Nat × Nat)) zipLongestStep
+      (fun e => match e with
+        | .both x y => s!"B({x},{pairNN y})"
+        | .left x => s!"L({x})"
+        | .right y => s!"R({pairNN y})")
+      (zipLongestHint a'.hint b'.hint))
   | "collect" =>
     let (s, _) ← st.natSrc "A"
     pure (ofFut s ([] : List Nat) collectG showNats)
